@@ -185,6 +185,9 @@ class _EpydocReader(StandaloneReader):
         is_fatal = level >= Reporter.ERROR_LEVEL
 
         linenum: Optional[int] = error.get('line')
+        if linenum:
+            # docutils line numbers are 1-based, ParseError line numbers are 0-based.
+            linenum -= 1
 
         msg = ''.join(c.astext() for c in error)
 
